@@ -559,6 +559,9 @@ class LimitRuleRun(Harness):
                for t in (["M0"], ["M1"], ["M0", "M1"]) for w in (0, 1)]
         out.append({"targets": ["M0"], "where": 0, "n1": 1, "active": [0, 0], "acts": ["limit"]})
         out.append({"targets": ["M0", "M1"], "where": 0, "n1": 1, "active": [1, 1], "acts": ["limit"], "rule_first": True})
+        # an order-mistake shock on a target market while the rule is active (the replaced order must be clipped too)
+        out.append({"targets": ["M0"], "where": 0, "n1": 1, "active": [1, 1], "acts": ["limit"], "only_m0": True,
+                    "mistake": True})
         out.append({"targets": ["M0"], "where": 0, "n1": 1, "active": [1, 1], "acts": ["limit", "market"]})
         out.append({"targets": ["M0"], "where": 0, "n1": 1, "active": [0, 1], "acts": ["limit"], "only_m0": True})
         if tier == "thorough":
@@ -574,9 +577,13 @@ class LimitRuleRun(Harness):
             sessions[0]["events"] = ["RULE", "PROBE"]      # the rule is not the last configured event
         else:
             sessions[case["where"]].setdefault("events", []).append("RULE")
-        st = rn.base_settings(n_agents=2, sessions=sessions, markets=markets,
-                              extra={"RULE": {"class": "PriceLimitRule", "targetMarkets": case["targets"],
-                                              "triggerChangeRate": 0.5}, "PROBE": {"class": "ProbeAll"}})
+        extra = {"RULE": {"class": "PriceLimitRule", "targetMarkets": case["targets"], "triggerChangeRate": 0.5},
+                 "PROBE": {"class": "ProbeAll"}}
+        if case.get("mistake"):
+            sessions[0]["events"].append("MISTAKE")
+            extra["MISTAKE"] = {"class": "OrderMistakeShock", "target": "M0", "triggerTime": 1, "priceChangeRate": -0.5,
+                                "orderVolume": 1, "orderTimeLength": 2}
+        st = rn.base_settings(n_agents=2, sessions=sessions, markets=markets, extra=extra)
         p0_at, p0_fill = {}, {}
 
         def on_event(kind, agent, p):
@@ -595,6 +602,7 @@ class LimitRuleRun(Harness):
         # with orders in step 0 the reference price itself is a solver term: the rate is then a concrete number
         # so that the band stays linear in the solver variables
         r = g.real("r", 0, 1, lo_strict=True, hi_strict=True) if case["active"][0] > 0 else 0.05
+        replaced = {"n": 0}
         for e in sim.events:
             if isinstance(e, PriceLimitRule):
                 e.trigger_change_rate = r
@@ -615,7 +623,11 @@ class LimitRuleRun(Harness):
                         g.require(sand(lg.price > lo - 1, lg.price < hi + 1), "C15.accepted-price-outside-band+tick",
                                   f"order accepted on target market {lg.market_id} outside the band widened by one tick")
                         inside = sand(ask["price"] >= lo, ask["price"] <= hi)
-                        g.require(sor(snot(inside), lg.price == ask["price"]), "C15.inside-band-price-changed")
+                        if case.get("mistake") and lg.time == 1 and replaced["n"] == 0:
+                            replaced["n"] = 1      # this order was replaced by the shock (C14): only the band applies
+                            g.note("mistake-order-on-target")
+                        else:
+                            g.require(sor(snot(inside), lg.price == ask["price"]), "C15.inside-band-price-changed")
                         if not bool(inside):
                             g.note("nontrivial")
                     else:
